@@ -40,7 +40,7 @@ func filterGen(form string, n, gap int, probe func()) seq.Iterator[int] {
 		}
 		switch form {
 		case "for-post":
-			return seq.For(func() bool { probe(); return i < n }, func() { i++ }, seq.Delay(body))
+			return seq.For(func() bool { probe(); return i < n }, func() { probe(); i++ }, seq.Delay(body))
 		case "while":
 			return seq.While(func() bool { return i < n }, seq.Delay(func() S {
 				probe()
@@ -127,6 +127,18 @@ func filterGen(form string, n, gap int, probe func()) seq.Iterator[int] {
 					return seq.Bind(inner.Current(), func() S { return normal() })
 				}))
 			}))
+		case "rerun-inner-for-with-probed-post":
+			// ONE inner For value WITH a post statement, run once per outer iteration; the depth is probed inside the post statements
+			col := 0
+			inner := seq.For(func() bool { return col < 3 && i < n }, func() { probe(); col++ }, seq.Delay(func() S {
+				j := i
+				i++
+				if j%gap == 0 {
+					return seq.Bind(j, func() S { return normal() })
+				}
+				return normal()
+			}))
+			return seq.For(func() bool { return i < n }, func() { probe(); col = 0 }, inner)
 		case "rerun-inner", "rerun-inner-combine", "rerun-three-levels":
 			// The inner loop is ONE Seq value, built once and run once per outer iteration (what the optimiser makes of
 			// `for rows() { for cols() { if keep() { Yield } } }`): rows of 3 columns, most rows yield nothing, so the
@@ -179,7 +191,7 @@ func delegate(inner seq.Iterator[int], d int) seq.Iterator[int] {
 	return inner
 }
 
-var c17Forms = []string{"for-post", "while", "loop-break", "for-continue", "combine-body", "nested", "rerun-inner", "rerun-inner-combine", "rerun-three-levels", "body-advances-other-generator", "body-delegates-to-empty-generators"}
+var c17Forms = []string{"for-post", "while", "loop-break", "for-continue", "combine-body", "nested", "rerun-inner", "rerun-inner-combine", "rerun-three-levels", "rerun-inner-for-with-probed-post", "body-advances-other-generator", "body-delegates-to-empty-generators"}
 
 // measure returns, over all advances, the largest (deepest probe - first probe of that advance).
 func measureC17(cs c17Case, yields int) (growth int, base int, delivered []int) {
